@@ -76,6 +76,7 @@ def main():
     subprocess.run(f'cd {VERIF}/tools/mutgen && go build -o {base}_mutgen . ', shell=True, env=env, check=True)
     setup()
     muts = [json.loads(l) for l in subprocess.run([base + '_mutgen', repo], capture_output=True, text=True).stdout.splitlines()]
+    allmuts = list(muts)
     outfile = f'{OUTDIR}/stage{stage}.tsv'
     done = set()
     if os.path.exists(outfile):
@@ -87,6 +88,10 @@ def main():
     import hashlib
     muts.sort(key=lambda m: hashlib.sha1(m['id'].encode()).hexdigest())
     muts = [m for i, m in enumerate(muts) if i % nstreams == stream and m['id'] not in done]
+    only = os.environ.get('MUT_ONLY')
+    if only:
+        want = set(only.split(','))
+        muts = [m for m in allmuts if m['id'] in want and m['id'] not in done]
     if LIMIT:
         muts = muts[:LIMIT]
     pristine = {}
